@@ -1,15 +1,351 @@
 //! C01 (architectural effect) and C02 (machine cycles) of translated blocks vs the interpreter.
 //! Stage (a): single-instruction blocks over complete operand classes (cpusweep).
-//! Further stages (pairs, triples, long blocks) are added below.
+//! Stage (b): two-instruction blocks `a; b; JP` for all ordered pairs of non-terminating
+//!            encodings (thorough) / of one representative per emitter template (quick), and
+//!            `a; t` for every terminator kind t — where host-flag and scratch-register
+//!            interactions between consecutive templates show.
+//! Stage (c): three-instruction blocks over the template representatives (thorough).
+//! Stage (d): long blocks: one encoding repeated up to a whole 16 KiB bank.
 
-use crate::checks::cpusweep;
+use crate::checks::cpusweep::{self, block_diff};
+use crate::jitstep::{BlockObs, JitWorld};
+use crate::refm::r1::{self, Cpu};
 use crate::util::json::J;
+use crate::util::pool::{run_pool, Ctx, PoolOpts};
 use crate::util::report::Report;
+use crate::world::hex;
+
+/// canonical encoding of an opcode: immediates chosen so that pointers land in WRAM
+fn encode(op: u8, cb: Option<u8>) -> Vec<u8> {
+  if let Some(c) = cb {
+    return vec![0xCB, c];
+  }
+  let len = r1::info(op).map(|i| i.0).unwrap_or(1);
+  match len {
+    1 => vec![op],
+    2 => {
+      let imm = match op {
+        0xE0 | 0xF0 => 0x85, // LDH: HRAM
+        0x18 | 0x20 | 0x28 | 0x30 | 0x38 => 0x02,
+        _ => 0x5A,
+      };
+      vec![op, imm]
+    },
+    _ => {
+      let (lo, hi) = match op {
+        0xC3 | 0xC2 | 0xCA | 0xD2 | 0xDA | 0xCD | 0xC4 | 0xCC | 0xD4 | 0xDC => (0x13, 0x02),
+        0x31 => (0xE0, 0xDF), // LD SP,DFE0
+        0x01 | 0x11 | 0x21 => (0x40, 0xC3),
+        _ => (0xF5, 0xC0), // (a16) in WRAM
+      };
+      vec![op, lo, hi]
+    },
+  }
+}
+
+fn all_ops() -> (Vec<Vec<u8>>, Vec<Vec<u8>>) {
+  let mut non_term = Vec::new();
+  let mut term = Vec::new();
+  for op in 0..=255u8 {
+    if op == 0xCB {
+      for c in 0..=255u8 {
+        non_term.push(encode(op, Some(c)));
+      }
+      continue;
+    }
+    match r1::info(op) {
+      None => {},
+      Some(i) => {
+        if i.3 { term.push(encode(op, None)) } else { non_term.push(encode(op, None)) }
+      },
+    }
+  }
+  (non_term, term)
+}
+
+/// one representative per emitter template and operand kind
+fn representatives() -> Vec<Vec<u8>> {
+  let mut v: Vec<Vec<u8>> = Vec::new();
+  let ops: [u8; 68] = [
+    0x00, 0x01, 0x31, 0x02, 0x1A, 0x22, 0x3A, 0x03, 0x33, 0x0B, 0x3B, 0x04, 0x3C, 0x34, 0x05, 0x3D, 0x35, 0x06, 0x3E, 0x36, 0x07, 0x0F, 0x17, 0x1F, 0x27, 0x2F, 0x37, 0x3F, 0x08, 0x09, 0x29, 0x39,
+    0x41, 0x7C, 0x6F, 0x46, 0x7E, 0x70, 0x77, 0xC1, 0xF1, 0xC5, 0xF5, 0xE0, 0xF0, 0xE2, 0xF2, 0xEA, 0xFA, 0xE8, 0xF8, 0xF9, 0x80, 0x86, 0x8F, 0x8E, 0x90, 0x9E, 0x98, 0xA0, 0xA6, 0xA8, 0xB0, 0xB8, 0xBE, 0xC6, 0xCE,
+    0xDE,
+  ];
+  for o in ops.iter() {
+    v.push(encode(*o, None));
+  }
+  for o in [0xD6u8, 0xE6, 0xEE, 0xF6, 0xFE].iter() {
+    v.push(encode(*o, None));
+  }
+  // CB: every rotate/shift kind on B and (HL); BIT/RES/SET on B, A and (HL), bits 0 and 7
+  for y in 0..8u8 {
+    v.push(vec![0xCB, y << 3]);
+    v.push(vec![0xCB, (y << 3) | 6]);
+  }
+  for x in 1..4u8 {
+    for bit in [0u8, 7].iter() {
+      for z in [0u8, 7, 6].iter() {
+        v.push(vec![0xCB, (x << 6) | (bit << 3) | z]);
+      }
+    }
+  }
+  v
+}
+
+const TERM: [u8; 3] = [0xC3, 0x13, 0x02];
+
+/// register vectors: HL/BC/DE on WRAM, varied A and F
+fn vectors(n: usize) -> Vec<Cpu> {
+  let mut v = Vec::new();
+  let fs = [0x00u8, 0xF0, 0x10, 0x80, 0x20, 0x40, 0x90, 0x60, 0x30, 0xC0, 0x50, 0xA0, 0x70, 0xE0, 0xB0, 0xD0];
+  let aa = [0x00u8, 0xFF, 0x0F, 0x80, 0x99, 0x7F, 0x10, 0x01, 0xA5, 0x5A, 0x9A, 0x66, 0x3C, 0xC3, 0xF0, 0x08];
+  for i in 0..n {
+    let hl: u16 = if i % 4 == 3 { 0xFF90 } else { 0xC2F0 + (i as u16) * 3 };
+    v.push(Cpu {
+      a: aa[i % 16],
+      f: fs[i % 16],
+      b: 0x12 ^ (i as u8),
+      c: 0x86 + (i as u8 & 1), // LD (C),A -> HRAM
+      d: 0xC1,
+      e: 0x30 + i as u8,
+      h: (hl >> 8) as u8,
+      l: hl as u8,
+      sp: 0xDFF0 - (i as u16 & 3) * 2,
+      pc: 0x0150,
+    });
+  }
+  v
+}
+
+fn block_name(parts: &[&Vec<u8>]) -> String {
+  parts.iter().map(|p| hex(p)).collect::<Vec<_>>().join(",")
+}
+
+fn obs_json(o: &BlockObs) -> J {
+  J::obj()
+    .set("af", J::s(format!("{:04X}", o.af & 0xffff)))
+    .set("bc", J::s(format!("{:04X}", o.bc & 0xffff)))
+    .set("de", J::s(format!("{:04X}", o.de & 0xffff)))
+    .set("hl", J::s(format!("{:04X}", o.hl & 0xffff)))
+    .set("sp", J::s(format!("{:04X}", o.sp & 0xffff)))
+    .set("pc", J::s(format!("{:04X}", o.ip & 0xffff)))
+    .set("cycles", J::u(o.cycles as u64))
+    .set("status", J::u(o.status as u64))
+    .set("refused", J::Bool(o.refused))
+    .set("panic", J::s(o.panic_msg.as_str()))
+    .set("writes", J::Arr(o.writes.iter().take(24).map(|(a, v)| J::s(format!("{:04X}<-{:02X}", a, v))).collect()))
+}
+
+/// run one block from several register vectors; report through ctx
+fn eval_block(prop: &str, jw: &mut JitWorld, ctx: &mut Ctx, code: &[u8], at: u16, name: &str, kind: &str, vecs: &[Cpu], est_len: usize) {
+  jw.unplant_all();
+  jw.plant_bytes(at, code);
+  for c0 in vecs.iter() {
+    let mut c = *c0;
+    c.pc = at;
+    let oi = jw.run_interp_block(&c);
+    jw.restore(&oi);
+    let t0 = jw.total_translations;
+    let oj = jw.run_jit_block(&c, est_len);
+    jw.restore(&oj);
+    ctx.count(0, 1);
+    ctx.count(1, jw.total_translations - t0);
+    ctx.class((((oi.af as u64) >> 4) & 0xf) | ((oi.cycles as u64 & 0xff) << 4) | ((oi.writes.len().min(7) as u64) << 12) | ((oi.refused as u64) << 15));
+    let d = block_diff(&oi, &oj);
+    for f in d.iter() {
+      let is_cycles = *f == "cycles";
+      if (prop == "C02") != is_cycles {
+        continue;
+      }
+      let key = if is_cycles { format!("C02 {}={} jit={} interp={}", kind, name, oj.cycles, oi.cycles) } else { format!("C01 {}={} field={}", kind, name, f) };
+      ctx.violation(&key, || {
+        J::obj()
+          .set("case", J::obj().set("block_bytes", J::s(hex(&code[..code.len().min(64)]))).set("block_len", J::u(code.len() as u64)).set("at", J::s(format!("{:04X}", at))).set("regs", J::s(format!("{:?}", c))))
+          .set("interpreter", obs_json(&oi))
+          .set("translated", obs_json(&oj))
+          .set("differing_fields", J::Arr(d.iter().map(|x| J::s(*x)).collect()))
+      });
+    }
+  }
+}
 
 pub fn run(prop: &'static str, tier: &str) -> i32 {
   let mut rep = Report::new(prop, tier, "translation_validation");
-  let n = cpusweep::stage_single(prop, &mut rep);
-  rep.cov("programs", J::u(n));
+  let thorough = rep.thorough();
+  let mut programs = cpusweep::stage_single(prop, &mut rep);
+  let mut evals = rep.evaluations;
+  // opcodes already failing on their own: pair findings involving them are not reported again
+  let bad_single: Vec<String> = rep.violations.iter().filter_map(|v| v.key.split("op=").nth(1).map(|s| s.split(' ').next().unwrap_or("").to_string())).collect();
+
+  let (non_term, term) = all_ops();
+  let reps = representatives();
+  let firsts: Vec<Vec<u8>> = if thorough { non_term.clone() } else { reps.clone() };
+  let seconds: Vec<Vec<u8>> = if thorough { non_term.clone() } else { reps.clone() };
+  let n_vec = if thorough { 8 } else { 4 };
+  let vecs = vectors(n_vec);
+
+  // ---- stage (b): pairs
+  {
+    let nf = firsts.len() as u64;
+    let ns = seconds.len() as u64 + term.len() as u64;
+    let total = nf * ns;
+    let opts = PoolOpts { chunk: 64, bitmap_bits: 1 << 16, samples_per_child: 1, workers: crate::util::pool::default_workers().min(8), ..PoolOpts::default() };
+    let bad = bad_single.clone();
+    let r = run_pool(
+      total,
+      &opts,
+      |_| JitWorld::new(),
+      |jw, case, ctx| {
+        let a = &firsts[(case / ns) as usize];
+        let j = (case % ns) as usize;
+        let (b, is_term) = if j < seconds.len() { (&seconds[j], false) } else { (&term[j - seconds.len()], true) };
+        let mut code = a.clone();
+        code.extend_from_slice(b);
+        if !is_term {
+          code.extend_from_slice(&TERM);
+        }
+        let name = block_name(&[a, b]);
+        let opn = |p: &Vec<u8>| if p[0] == 0xCB { format!("CB{:02X}", p[1]) } else { format!("{:02X}", p[0]) };
+        if bad.contains(&opn(a)) || bad.contains(&opn(b)) {
+          return;
+        }
+        ctx.sample(|| J::obj().set("block", J::s(format!("{}{}", name, if is_term { "" } else { ",C31302" }))).set("register_vectors", J::u(vecs.len() as u64)));
+        eval_block(prop, jw, ctx, &code, 0x0150, &name, "pair", &vecs, 3);
+      },
+      |case, how| {
+        let a = &firsts[(case / ns) as usize];
+        let j = (case % ns) as usize;
+        let b = if j < seconds.len() { &seconds[j] } else { &term[j - seconds.len()] };
+        (format!("{} pair={} crash={}", prop, block_name(&[a, b]), how), J::obj().set("case", J::obj().set("pair", J::s(block_name(&[a, b])))))
+      },
+    );
+    let space = if thorough {
+      format!("all {} x {} ordered pairs of non-terminating encodings + every one x {} terminator kinds, {} register vectors each", nf, seconds.len(), term.len(), n_vec)
+    } else {
+      format!("{} x {} ordered pairs of emitter-template representatives + every one x {} terminator kinds, {} register vectors each", nf, seconds.len(), term.len(), n_vec)
+    };
+    let c = rep.add_stage("pair-blocks", &space, r);
+    programs += total;
+    evals += c[0];
+  }
+  // ---- stage (c): triples over representatives (thorough)
+  if thorough {
+    let n = reps.len() as u64;
+    let total = n * n * n;
+    let vec3 = vectors(2);
+    let opts = PoolOpts { chunk: 256, bitmap_bits: 1 << 16, samples_per_child: 1, workers: crate::util::pool::default_workers().min(8), deadline: Some(std::time::Duration::from_secs(420)), ..PoolOpts::default() };
+    let r = run_pool(
+      total,
+      &opts,
+      |_| JitWorld::new(),
+      |jw, case, ctx| {
+        let a = &reps[(case / (n * n)) as usize];
+        let b = &reps[((case / n) % n) as usize];
+        let c3 = &reps[(case % n) as usize];
+        let mut code = a.clone();
+        code.extend_from_slice(b);
+        code.extend_from_slice(c3);
+        code.extend_from_slice(&TERM);
+        let name = block_name(&[a, b, c3]);
+        ctx.sample(|| J::obj().set("block", J::s(format!("{},C31302", name))));
+        eval_block(prop, jw, ctx, &code, 0x0150, &name, "triple", &vec3, 4);
+      },
+      |case, how| (format!("{} triple-case={} crash={}", prop, case, how), J::obj().set("case", J::obj().set("triple_index", J::u(case)))),
+    );
+    let c = rep.add_stage("triple-blocks", &format!("all {}^3 ordered triples of emitter-template representatives, 2 register vectors each", n), r);
+    programs += c[0] / 2;
+    evals += c[0];
+  }
+  // ---- stage (d): long blocks
+  {
+    let ops: Vec<Vec<u8>> = vec![vec![0x00], vec![0x34], vec![0xC5], vec![0xC1], vec![0x3C], vec![0xCB, 0x16], vec![0x09], vec![0x2A]];
+    let lens: Vec<usize> = if thorough { vec![1, 2, 255, 1000, 4000, 8000, 16000] } else { vec![1000, 8000] };
+    let cases: Vec<(Vec<u8>, usize, u16)> = ops
+      .iter()
+      .flat_map(|o| {
+        lens.iter().flat_map(move |l| {
+          // in the switchable bank (room for 16 KiB) and in the fixed bank (ends at the 0x4000 boundary)
+          vec![(o.clone(), *l, 0x4000u16), (o.clone(), *l, 0x0150u16)]
+        })
+      })
+      .collect();
+    let vec2 = vectors(2);
+    let opts = PoolOpts { chunk: 1, bitmap_bits: 1 << 12, samples_per_child: 1, workers: 4, ..PoolOpts::default() };
+    let r = run_pool(
+      cases.len() as u64,
+      &opts,
+      |_| JitWorld::new(),
+      |jw, case, ctx| {
+        let (op, l, at) = &cases[case as usize];
+        let room = if *at == 0x4000 { 0x3FF0 } else { 0x4000 - 0x0150 - 8 };
+        let count = (*l).min(room / op.len());
+        let mut code = Vec::with_capacity(count * op.len() + 3);
+        for _ in 0..count {
+          code.extend_from_slice(op);
+        }
+        code.extend_from_slice(&[0xC3, 0x50, 0x01]);
+        let name = format!("{}x{}@{:04X}", hex(op), count, at);
+        ctx.sample(|| J::obj().set("block", J::s(name.as_str())));
+        eval_block(prop, jw, ctx, &code, *at, &name, "block", &vec2, count);
+      },
+      |case, how| {
+        let (op, l, at) = &cases[case as usize];
+        (format!("{} block={}x{}@{:04X} crash={}", prop, hex(op), l, at, how), J::obj().set("case", J::obj().set("op", J::s(hex(op))).set("repeat", J::u(*l as u64))))
+      },
+    );
+    let c = rep.add_stage("long-blocks", "one encoding repeated up to a whole bank (block sums up to 65 524 machine cycles), at 0x4000 and at 0x0150 (ends at the fixed-bank boundary)", r);
+    programs += cases.len() as u64;
+    evals += c[0];
+  }
+  // ---- stage (e): banked placements — every encoding placed on and around the boundary
+  // between the fixed bank and the switchable bank of a real MBC1 cartridge with bank 2 or 3
+  // mapped (bytes beyond 0x3FFF must be fetched from the mapped bank, not from bank 1)
+  {
+    let img = crate::world::make_image(0x03, 0x01, 0x02, 4, |b, o| ((o * 7) ^ (o >> 8) ^ (b * 0x55)) as u8);
+    let image = crate::world::write_rom_file(&img);
+    let mut blocks: Vec<Vec<u8>> = Vec::new();
+    for p in non_term.iter() {
+      let mut c = p.clone();
+      c.extend_from_slice(&TERM);
+      blocks.push(c);
+    }
+    for t in term.iter() {
+      blocks.push(t.clone());
+    }
+    let places: [u16; 7] = [0x3FFA, 0x3FFD, 0x3FFE, 0x3FFF, 0x4000, 0x4001, 0x7FF8];
+    let banks: [u8; 2] = [2, 3];
+    let nb = blocks.len() as u64;
+    let total = nb * places.len() as u64 * banks.len() as u64;
+    let vec4 = vectors(if thorough { 4 } else { 2 });
+    let opts = PoolOpts { chunk: 64, bitmap_bits: 1 << 16, samples_per_child: 1, workers: crate::util::pool::default_workers().min(8), ..PoolOpts::default() };
+    let img_path = image.clone();
+    let r = run_pool(
+      total,
+      &opts,
+      |_| (JitWorld::new_banked(&img_path, 2), JitWorld::new_banked(&img_path, 3)),
+      |ws, case, ctx| {
+        let bi = (case % banks.len() as u64) as usize;
+        let pi = ((case / banks.len() as u64) % places.len() as u64) as usize;
+        let blk = &blocks[(case / (banks.len() as u64 * places.len() as u64)) as usize];
+        let jw = if bi == 0 { &mut ws.0 } else { &mut ws.1 };
+        let name = format!("{}@{:04X}/bank{}", hex(&blk[..blk.len().min(3)]), places[pi], banks[bi]);
+        ctx.sample(|| J::obj().set("block", J::s(hex(blk))).set("placement", J::s(format!("{:04X}", places[pi]))).set("mapped_bank", J::u(banks[bi] as u64)));
+        // key by opcode and placement class, not by bank
+        let opn = if blk[0] == 0xCB { format!("CB{:02X}", blk[1]) } else { format!("{:02X}", blk[0]) };
+        let cls = if places[pi] < 0x3FFD { "fixed->switchable" } else if places[pi] < 0x4000 { "straddles-3FFF/4000" } else { "switchable" };
+        eval_block(prop, jw, ctx, blk, places[pi], &format!("{}@{}", opn, cls), "banked", &vec4, 3);
+        let _ = name;
+      },
+      |case, how| (format!("{} banked-case={} crash={}", prop, case, how), J::obj().set("case", J::obj().set("banked_index", J::u(case)))),
+    );
+    let c = rep.add_stage("banked-placements", &format!("all {} single-instruction blocks x 7 placements around 0x3FFF/0x4000 and in the switchable bank x mapped bank 2|3 of a 4-bank MBC1 image whose banks differ everywhere", nb), r);
+    programs += total;
+    evals += c[0];
+    let _ = std::fs::remove_file(&image);
+  }
+  rep.evaluations = evals;
+  rep.cov("programs", J::u(programs));
   rep.cov("disagreements_checked", J::u(rep.violations.iter().map(|v| v.count).sum()));
+  rep.assume("pairs/triples use canonical immediates (pointers into WRAM/HRAM) and 2-8 register vectors; the complete operand spaces are covered per instruction in stage (a)");
   rep.finish()
 }
